@@ -1,5 +1,6 @@
 import MpsVerif.Drv.Fifo
 import MpsVerif.Drv.Buffer
+import MpsVerif.Drv.Batch
 import MpsVerif.Drv.Ledger
 import MpsVerif.Drv.RemoteExc
 import MpsVerif.Drv.AFifo
@@ -10,6 +11,7 @@ def main (args : List String) : IO UInt32 := do
   match args with
   | ["fifo"] => Fifo.Drv.main; return 0
   | ["buffer"] => Buffer.Drv.main; return 0
+  | ["batch"] => Batch.Drv.main; return 0
   | ["ledger"] => Ledger.Drv.main; return 0
   | ["remoteexc"] => RemoteExc.Drv.main; return 0
   | ["afifo"] => AFifo.Drv.main; return 0
